@@ -363,6 +363,9 @@ func tracedPositions(b baseImage, r *hx.Rng) []int64 {
 
 func genCases(c *hx.Ctx, b baseImage) []string {
 	var lines []string
+	if c.Args["crafted"] != "" { // builder's aid: the crafted cases only
+		return craftedCases(c, b)
+	}
 	add := func(off int64, val []byte, desc string) {
 		lines = append(lines, fmt.Sprintf("%d:%s\t%s", off, hex.EncodeToString(val), desc))
 	}
